@@ -240,4 +240,20 @@ def throttleKind : Kind where
             nontrivial := st.m.grants.length ≥ 2 || st.dropped || st.released }
     | _, _, _ => { st := st, bad := some s!"throttle line {l.op}" }
 
+/-! ## throttle under real parallelism (kind `throttlerace`)
+
+`race n`: the harness runs `n` rounds outside the virtual clock: a goroutine calls `Next` on a fresh throttle and
+another calls `Cancel` at (almost) the same moment, with a varying head start.  Whatever the interleaving, the
+specification (`no_permission_after_cancel`, `cancel_releases_blocked`: after `Cancel` nobody stays blocked and
+`Next` answers `false`) allows one answer only: every round ends with `Next` having returned `false`. -/
+def throttleRaceKind : Kind where
+  σ := Unit
+  init := fun _ => some ()
+  step := fun st l =>
+    match l.op, l.args with
+    | "race", [.int _] =>
+      { st := st, model := some [.atom "ok"], tags := ["throttle:cancel-races-next"], nontrivial := true
+        spec := if l.res == [.atom "ok"] then none else some "throttle:cancel-releases-blocked-next" }
+    | _, _ => { st := st, bad := some s!"throttlerace: bad line {l.op}" }
+
 end GoguVerif.Kinds.C20
